@@ -59,6 +59,7 @@ type devCase struct {
 	Seed      uint64
 	DropAbort bool
 	Sched     []int
+	MsgLen    int // 0 = the standard 32-byte message hash
 }
 
 var lastSummary string
@@ -68,7 +69,7 @@ const nthProofError = "failed to validate Delta MtA Nth proof"
 
 func devRun(c devCase) *pbt.Fail {
 	lastSummary = ""
-	rep, err := advrun.Run(advrun.Case{Setup: advrun.Setup{Proto: c.Variant, N: c.Signers, T: c.Signers - 1, Seed: c.Seed}, Cheater: c.Cheater,
+	rep, err := advrun.Run(advrun.Case{Setup: advrun.Setup{Proto: c.Variant, N: c.Signers, T: c.Signers - 1, Seed: c.Seed, MsgLen: c.MsgLen}, Cheater: c.Cheater,
 		Deviation: c.Deviation, DropAbort: c.DropAbort, Sched: c.Sched})
 	if err != nil {
 		return fail(err, c.Variant+":"+c.Deviation)
@@ -105,7 +106,7 @@ func devRun(c devCase) *pbt.Fail {
 }
 
 var devProp = pbt.Define(pbt.Prop[devCase]{Kind: "presign-deviation", Run: devRun, Journal: true, Class: func(c devCase) (string, bool) {
-	return fmt.Sprintf("dev|%s|%s|signers=%d|cheater=%d|drop=%v|%s", c.Variant, c.Deviation, c.Signers, c.Cheater, c.DropAbort, lastSummary), true
+	return fmt.Sprintf("dev|%s|%s|signers=%d|cheater=%d|drop=%v|msg=%d|%s", c.Variant, c.Deviation, c.Signers, c.Cheater, c.DropAbort, c.MsgLen, lastSummary), true
 }})
 
 func applicable(variant, dev string) bool {
@@ -136,8 +137,41 @@ func TestDeviations(t *testing.T) {
 		c.Seed = rapid.Uint64Range(1, 3).Draw(rt, "seed")
 		c.DropAbort = rapid.Bool().Draw(rt, "dropAbort")
 		c.Sched = rapid.SliceOfN(rapid.IntRange(0, 4095), 0, 30).Draw(rt, "sched")
+		if c.Variant != proto.CMPPresign {
+			c.MsgLen = rapid.SampledFrom([]int{0, 0, 20, 33, 64}).Draw(rt, "msgLen")
+		}
 		devProp.One(rt, c)
 	})
+}
+
+// TestSigmaShare enumerates the wrong-sigma-share deviation (the one whose identification runs through
+// PreSignature.VerifySignatureShares) over variant x message-hash length x number of signers x cheater position: every
+// honest signer must single out the cheater, for short, standard and long hashes alike.
+func TestSigmaShare(t *testing.T) {
+	rec := ev.Get()
+	i := 0
+	type cfg struct {
+		variant string
+		lens    []int
+		ns      []int
+	}
+	cfgs := []cfg{{proto.CMPPresignOnline, []int{0, 20, 33, 64}, []int{2, 3}}, {proto.CMPPresignFull, []int{0, 64}, []int{2}}}
+	if rec.Thorough() {
+		cfgs = []cfg{{proto.CMPPresignOnline, []int{0, 1, 20, 31, 33, 64, 100}, []int{2, 3, 4}}, {proto.CMPPresignFull, []int{0, 20, 33, 64}, []int{2, 3}}}
+	}
+	for _, c := range cfgs {
+		for _, l := range c.lens {
+			for _, n := range c.ns {
+				for cheater := 0; cheater < n; cheater++ {
+					i++
+					if !rec.Mine(i) {
+						continue
+					}
+					devProp.One(t, devCase{Variant: c.variant, Signers: n, Cheater: cheater, Deviation: "sigma-share", Seed: 1, MsgLen: l})
+				}
+			}
+		}
+	}
 }
 
 // ---- ciphertext-level deviations: a well-formed ciphertext of a wrong value in ONE direct message (O1, and the
@@ -261,11 +295,15 @@ func wireRun(c wireCase) *pbt.Fail {
 		lastWire = "not-applied"
 		return nil
 	}
-	lastWire = fmt.Sprintf("r%d|bc=%v|%s|%s|%s|%s", c.Tamper.Round, c.Tamper.Broadcast, rep.Applied.Generic, rep.Applied.LeafKind, c.Tamper.Kind, rep.Summary())
+	kindName := c.Tamper.Kind
+	if c.Tamper.Early {
+		kindName += "+early"
+	}
+	lastWire = fmt.Sprintf("r%d|bc=%v|%s|%s|%s|%s", c.Tamper.Round, c.Tamper.Broadcast, rep.Applied.Generic, rep.Applied.LeafKind, kindName, rep.Summary())
 	if sig, d := rep.UnsoundBlame(); sig != "" {
 		return pbt.Failf(sig, fmt.Sprintf("%s (alteration: %s of %s in round %d)", d, c.Tamper.Kind, rep.Applied.Generic, c.Tamper.Round))
 	}
-	if c.Tamper.Kind == "value" && catalogue[catKey(c.Setup.Proto, c.Tamper.Round, c.Tamper.Broadcast, rep.Applied.Generic)] {
+	if c.Tamper.Kind == "value" && !c.Tamper.Early && catalogue[catKey(c.Setup.Proto, c.Tamper.Round, c.Tamper.Broadcast, rep.Applied.Generic)] {
 		for _, id := range rep.Honest {
 			if !rep.Applied.Reached[string(id)] || rep.Relayed[id] {
 				continue
@@ -343,14 +381,33 @@ func genWire(t *rapid.T, protos []string, maxN int) (wireCase, bool) {
 			}
 		}
 	}
+	if strings.Contains(p, "sign") && p != proto.CMPPresign {
+		c.Setup.MsgLen = rapid.SampledFrom([]int{0, 0, 0, 20, 33, 64}).Draw(t, "msgLen")
+	}
 	c.Cheater = rapid.IntRange(0, c.Setup.N-1).Draw(t, "cheater")
 	ss, err := slots(c.Setup, c.Cheater)
 	if err != nil || len(ss) == 0 {
 		return c, false
 	}
-	s := ss[rapid.IntRange(0, len(ss)-1).Draw(t, "slot")]
+	// two-stage choice: first the message field (array positions collapsed), then one occurrence of it; a uniform choice over
+	// all leaves would spend almost every case on the hundreds of entries of the OT matrices
+	var fields []string
+	byField := map[string][]slot{}
+	for _, sl := range ss {
+		k := fmt.Sprintf("%d|%v|%s|%s", sl.Round, sl.Broadcast, sl.To, mut.Generic(sl.Path))
+		if _, ok := byField[k]; !ok {
+			fields = append(fields, k)
+		}
+		byField[k] = append(byField[k], sl)
+	}
+	group := byField[fields[rapid.IntRange(0, len(fields)-1).Draw(t, "field")]]
+	s := group[rapid.IntRange(0, len(group)-1).Draw(t, "slot")]
 	kind := rapid.SampledFrom([]string{"value", "value", "value", "copy-other-recipient", "copy-other-sender", "substitute-other-recipient", "substitute-other-round"}).Draw(t, "kind")
 	c.Tamper = adv.Tamper{Round: s.Round, Broadcast: s.Broadcast, To: s.To, Path: s.Path, Kind: kind, Variant: rapid.IntRange(0, 5).Draw(t, "variant")}
+	if s.Round >= 3 && (kind == "value" || kind == "copy-other-sender") {
+		// the altered message may also arrive ahead of its round (it is then queued and verified when the round is reached)
+		c.Tamper.Early = rapid.IntRange(0, 3).Draw(t, "early") == 0
+	}
 	c.DropAbort = rapid.Bool().Draw(t, "dropAbort")
 	c.Sched = rapid.SliceOfN(rapid.IntRange(0, 4095), 0, 30).Draw(t, "sched")
 	return c, true
